@@ -668,3 +668,81 @@ def t4(chk, prog, exempt_entries=()):
             else:
                 chk.instance(R, '%s -> %s: writes only through per-worker fields %s; shared fields %s are read-only' % (
                     f.name, ent, sorted(written), sorted(k for k, v in cls.items() if v == 'shared')))
+
+
+# ---------------------------------------------------------------------------------------
+# T6  accumulators are fresh in every batch
+
+def accumulated_fields(prog, ef):
+    """fields F of the worker argument that the worker accumulates into (+=, -=, ++ through arg->F->...)"""
+    argvars = set()
+    for n in walk(ef.body):
+        if is_assign(n) and fe.ref_id(kids(n)[1]) == ef.params[0]['id']:
+            argvars.add(fe.ref_id(kids(n)[0]))
+        if n.get('kind') == 'VarDecl' and kids(n) and fe.ref_id(kids(n)[-1]) == ef.params[0]['id']:
+            argvars.add(n['id'])
+    out = {}
+    for n in walk(ef.body):
+        if n.get('kind') == 'CompoundAssignOperator' or is_incdec(n):
+            e = strip(kids(n)[0])
+            chain = []
+            while e.get('kind') in ('MemberExpr', 'ArraySubscriptExpr'):
+                if e['kind'] == 'MemberExpr':
+                    chain.append(e['name'])
+                e = strip(kids(e)[0])
+            if e.get('kind') == 'DeclRefExpr' and e['referencedDecl']['id'] in argvars and len(chain) >= 2:
+                out.setdefault(chain[-1], n)
+    return out
+
+
+def t6(chk, prog):
+    R = chk.rule('T6.fresh-accumulators', 'a per-worker buffer that the worker accumulates into (+=, ++) and that the dispatcher merges '
+                 'after each batch is created or cleared inside the batch loop: nothing is carried from one batch to the next, so the '
+                 'result cannot depend on how iterations are cut into batches (i.e. on the thread count)')
+    n = 0
+    for (f, base), creates in dispatch_sites(prog).items():
+        pm = flow.parent_map(f.body)
+        for (call, ent, idx, a) in creates:
+            ef = prog.funcs.get(ent)
+            if ef is None or len(a) < 4:
+                continue
+            acc = accumulated_fields(prog, ef)
+            if not acc:
+                continue
+            loops = flow.enclosing_loops(pm, call)
+            if len(loops) < 2:
+                continue                      # a single batch: nothing can be carried over
+            batch = loops[1]
+            t = strip(a[3])
+            if t.get('kind') == 'UnaryOperator' and t.get('opcode') == '&':
+                t = strip(kids(t)[0])
+            bid = fe.ref_id(kids(t)[0]) if t.get('kind') == 'ArraySubscriptExpr' else None
+            for fld in sorted(acc):
+                n += 1
+                fresh_in, fresh_out = [], []
+                for x in walk(f.body):
+                    if x.get('kind') != 'CallExpr':
+                        continue
+                    cn = callee_name(x) or ''
+                    if not (cn.startswith(('New', 'init')) or cn.endswith(('Set', 'Resize'))):
+                        continue
+                    for arg in call_args(x)[:1]:
+                        s_ = strip(arg)
+                        if s_.get('kind') == 'UnaryOperator' and s_.get('opcode') == '&':
+                            s_ = strip(kids(s_)[0])
+                        if s_.get('kind') == 'MemberExpr' and s_.get('name') == fld:
+                            b = strip(kids(s_)[0])
+                            if b.get('kind') == 'ArraySubscriptExpr' and fe.ref_id(kids(b)[0]) == bid:
+                                (fresh_in if batch in flow.ancestors(pm, x) else fresh_out).append(x)
+                desc = '%s -> %s accumulates into %s' % (f.name, ent, fld)
+                if fresh_in:
+                    chk.instance(R, desc + ': created/cleared inside the batch loop')
+                elif fresh_out:
+                    chk.instance(R, desc + ': created outside the batch loop and never cleared inside it', 'refuted')
+                    chk.violation(Finding('T6.fresh-accumulators', rel(f.file), f.name, 'field:' + fld, f.unit.where(fresh_out[0]),
+                                          '%s creates the per-worker accumulator `%s` once outside the batch loop and merges it after every '
+                                          'batch without clearing it: contributions of earlier batches are merged again, so the result depends '
+                                          'on the number of batches (thread count)' % (f.name, fld)))
+                else:
+                    chk.instance(R, desc + ': no creation/clearing statement found', 'undecided')
+    return n
